@@ -115,6 +115,8 @@ fn main() {
     }
     let mut rep = Report::new(&ctx.prop.to_uppercase());
     let started = std::time::Instant::now();
+    // zones with a thousand records are out of reach of the interpreter
+    gen::SMALL_ZONES.store(ctx.is_miri(), std::sync::atomic::Ordering::Relaxed);
     let known = props::run(&ctx, &mut rep);
     if !known {
         eprintln!("unknown property {}", ctx.prop);
